@@ -29,6 +29,14 @@ CLAIMS = {
             "Machine-checked proofs over all histories of the eight payment endpoints, collectFees, refund and setGasCollector: who can move funds, to whom and how much, the exact event of every accepted payment, and the per-token conservation law by induction over arbitrary call lists; the real gas service is run in the Rust VM against the compiled model (balances compared after every operation) and judged by the same rules.",
             "Payments are fungible (nonce 0) ESDT or EGLD as the endpoints require; balances are unbounded naturals (BigUint). Trusted: Lean kernel, model, harness, debug VM balance/transfer semantics.",
             "DESIGN.md §3 C15"),
+    "C09": ("Lean 4 theorems: accepted give/take under limit L>0 has amount<=L and net flow<=L; net-flow bound preserved by every endpoint and lifted by induction to all call histories under a constant limit; counters touched only in the current epoch; zero limit never rejects; limit changes only by a flow limiter; differential run with boundary-directed amounts + judge on the real token manager",
+            "Machine-checked proofs about the model of add_flow / giveToken / takeToken / setFlowLimit and of every other token-manager endpoint (frame), lifted to all histories; the real token-manager crate is run in the Rust VM against the compiled model with amounts chosen around the limit and the current net flow and with epoch roll-overs, and judged by the bound itself.",
+            "Time is the block timestamp supplied per transaction (monotone); EPOCH_TIME extracted from the source. Trusted: Lean kernel, model, harness, debug VM.",
+            "DESIGN.md §3 C09"),
+    "C10": ("Lean 4 theorems: token-moving effects only via giveToken/takeToken by the bound service or mint/burn by a minter of a native manager with token set; exact custody shapes for lock/unlock and mint/burn kinds; transfer_role/accept_role effects (role leaves the old holder, proposal single-use, exact roles); characterisation of every role change over all endpoints; differential run + judge on the real token manager and roles module",
+            "Machine-checked proofs over a complete case analysis of the token-manager endpoints (call_cases): gating of custody and mint/burn, exact effects per manager kind, and that any change of an account's roles is one of the nine guarded role operations or the issuance step; the real crates are run against the compiled model (balances, roles and proposals compared after every operation).",
+            "ESDT local mint/burn roles are protocol state set by the harness (`roles` op) as the system contract would; the debug VM's role check is the one exercised. Trusted: Lean kernel, model, harness, debug VM.",
+            "DESIGN.md §3 C10"),
     "C06": ("Lean 4 theorem: model of raw_abi_encode = independent Solidity abi.encode spec, for all token lists; tied to source by regenerated field tables + differential run on the real abi_encode",
             "Machine-checked proof (Lean 4 kernel) that the model of the Rust encoder equals a Solidity-ABI spec for every value (all lengths, all integers < 2^256), and rejects every integer >= 2^256; the model is tied to /repo by regenerated field lists (proof obligations) and by running the real `abi_encode` of all five payload structs against the model and against the spec on generated values.",
             "Assumes: total encoding < 2^32 bytes (u32 arithmetic in abi.rs; unreachable for buffers the VM can hold); bytes32 fields are 32 bytes (Rust type). Trusted: Lean kernel, hand-written model/spec, extractor, harness, Rust debug VM managed-type API.",
